@@ -91,7 +91,7 @@ func utf8Valid(s string) bool { return strings.ToValidUTF8(s, "\x00") == s }
 
 type c12Stats struct {
 	crashStates, inside, differing, continuations int
-	syscalls                                    map[string]int
+	syscalls                                      map[string]int
 }
 
 func saverPath() string {
